@@ -506,6 +506,8 @@ where
     B: Send + 'static,
 {
     fn drop(mut self: Pin<&mut Self>) {
+        #[cfg(feature = "verif-hooks")]
+        use crate::verif_hooks::shim as tokio;
         #[cfg(debug_assertions)]
         tracing::trace!(id=%self.id, "drop for checkout");
 
